@@ -1599,14 +1599,18 @@ def normalize(project) -> List[str]:
     except OSError:
         return []
     renamed = recover_renamed_anchors(project)
-    from .normalize2 import simplify_defensive, recover_loops, hoist_lambda_calls, sink_loop_exit, unroll_search_loops, search_loops_to_any, fold_local_tables, dispatch_on_constant, accumulate_to_join, propagate_string_constants, unroll_index_loops, scalarise_local_lists, scalarise_records, fold_dict_building
+    from .normalize2 import simplify_defensive, recover_loops, hoist_lambda_calls, sink_loop_exit, unroll_search_loops, search_loops_to_any, fold_local_tables, dispatch_on_constant, accumulate_to_join, propagate_string_constants, unroll_index_loops, scalarise_local_lists, scalarise_records, fold_dict_building, unfold_reduce
 
     module_of = {id(fi.node): fi.module for fi in project.funcs.values()}
+    fi_of = {id(fi.node): fi for fi in project.funcs.values()}
+    from .resolve import Scope as _Scope
 
     def style_passes(fn) -> int:
         total = 0
         for _ in range(4):
             n = desugar(fn)
+            if id(fn) in fi_of and any(isinstance(x, ast.Call) and isinstance(x.func, (ast.Name, ast.Attribute)) and (x.func.id if isinstance(x.func, ast.Name) else x.func.attr) == "reduce" for x in ast.walk(fn)):
+                n += unfold_reduce(fn, _Scope(project, fi_of[id(fn)]).resolve)
             n += hoist_lambda_calls(fn)
             n += simplify_defensive(fn)
             n += recover_loops(fn)
